@@ -726,3 +726,44 @@ func TestKF_sparse_swap(t *testing.T) {
 	obs.KFStatus("C10/sparse-vector-swap-raw-slots", p != "" || v.Float64At(2) != 5 || v.Float64At(0) != 0 || fmt.Sprint(visited) != "[2]",
 		fmt.Sprintf("panic=%q v=[%v %v %v] iterator visits %v", p, v.Float64At(0), v.Float64At(1), v.Float64At(2), visited))
 }
+
+func TestKF_dense_iterator_on_slice(t *testing.T) {
+	b := NewDenseFloat64Matrix([]float64{1, 2, 3, 4, 5, 6, 7, 8, 9}, 3, 3)
+	v := b.Slice(1, 3, 1, 3) // [[5,6],[8,9]]
+	var got []float64
+	p := call(func() {
+		for it := v.ConstIterator(); it.Ok(); it.Next() {
+			got = append(got, it.GetConst().GetFloat64())
+		}
+	})
+	obs.KFStatus("C10/dense-iterator-on-views", p != "" || fmt.Sprint(got) != "[5 6 8 9]", fmt.Sprintf("panic=%q iterating Slice(1,3,1,3) of 3x3 1..9 yields %v", p, got))
+}
+
+func TestKF_dense_reset_on_slice(t *testing.T) {
+	b := NewDenseFloat64Matrix([]float64{1, 2, 3, 4}, 2, 2)
+	b.Slice(0, 1, 0, 1).Reset()
+	obs.KFStatus("C10/dense-reset-clears-parent", b.Float64At(1, 1) != 4 || b.Float64At(0, 0) != 0, fmt.Sprintf("after Slice(0,1,0,1).Reset(): b=[%v %v; %v %v]", b.Float64At(0, 0), b.Float64At(0, 1), b.Float64At(1, 0), b.Float64At(1, 1)))
+}
+
+func TestKF_sparse_iterator_on_slice(t *testing.T) {
+	b := NullSparseFloat64Matrix(2, 2)
+	b.At(0, 0).SetFloat64(1)
+	b.At(1, 1).SetFloat64(4)
+	v := b.Slice(1, 2, 1, 2)
+	var got []string
+	p := call(func() {
+		for it := v.ConstIterator(); it.Ok(); it.Next() {
+			i, j := it.Index()
+			got = append(got, fmt.Sprintf("(%d,%d)=%v", i, j, it.GetConst().GetFloat64()))
+		}
+	})
+	obs.KFStatus("C10/sparse-iterator-on-views", p != "" || fmt.Sprint(got) != "[(0,0)=4]", fmt.Sprintf("panic=%q iterating Slice(1,2,1,2) yields %v", p, got))
+}
+
+func TestKF_sparse_asvector_slice(t *testing.T) {
+	b := NullSparseFloat64Matrix(2, 2)
+	b.At(0, 0).SetFloat64(1)
+	b.At(1, 1).SetFloat64(4)
+	n := b.Slice(1, 2, 0, 2).AsVector().Dim()
+	obs.KFStatus("C10/sparse-asvector-view-test", n != 2, fmt.Sprintf("AsVector of the 1x2 slice rows(1,2) has length %d", n))
+}
